@@ -1,4 +1,5 @@
 import ZmqVerif.Lemmas.NoPanic
+import ZmqVerif.Lemmas.WorldSendStart
 import ZmqVerif.Lemmas.Retained
 import ZmqVerif.Lemmas.Segment
 import ZmqVerif.Model.Tables
@@ -68,5 +69,30 @@ example : decode Dec.framing [2, 255, 255, 255, 255, 255, 255, 255, 255]
     = .none ⟨.body ⟨false, true, false⟩ 18446744073709551615, []⟩ [] := by
   rw [Dec.framing, decode_header, decode_len_long _ (by decide) _ _ (by decide), decode.eq_1]
   decide
+
+/-- **No frame count a peer can choose makes `RouterSocket::send` panic** (fix D19: `proxy()` hands this socket
+whatever a peer of the other socket sent — a worker's single-frame message used to hit `assert!(message.len() > 1)`
+and take the process down): for EVERY message the call ends as `Pending`, `Ok` or an error. -/
+theorem C03_router_send_no_panic (w : Zmq.W.World) (sid : Nat) (m : Zmq.Msg) :
+    (Zmq.W.routerSendStart w sid m).2.2 ≠ .ready .panic := by
+  unfold Zmq.W.routerSendStart
+  split
+  · simp
+  · cases m with
+    | nil => rename_i h; simp at h
+    | cons t rest =>
+      simp only [Zmq.routerOut]
+      split
+      · simp
+      · split
+        · simp
+        · cases hs : Zmq.W.getSock w sid with
+          | none => simp
+          | some s =>
+            simp only
+            split
+            · rcases Zmq.W.sendToPoll_shape w sid t (.feeding (Zmq.encodeMsg rest)) false with ⟨st', h⟩ | h | ⟨e, h⟩ <;>
+                simp [h]
+            · simp
 
 end Zmq.C03
